@@ -173,6 +173,20 @@ def struct_program(rng):
                 if d == 0 or (not force and rng.random() < 0.3):
                     t, s_, c, n = atom()
                     return ["A", t], s_, True, (c, n, t)
+                ku = rng.random()
+                if ku < 0.3:
+                    # stage 11: a shift by a literal 0..7, `~(e)` (= e ^ 255) and `-(e)` (= 0 - e) of a non-constant operand
+                    while True:
+                        st_, ss_, sa, si = tree(d - 1, False)
+                        if not (sa and si[0]):
+                            break
+                    inner = ss_ if sa else "(%s)" % ss_
+                    if ku < 0.18:
+                        left = rng.random() < 0.5; kk = rng.choice([0, 1, 1, 2, 3, 4, 7])
+                        return ["S", "l" if left else "r", str(kk)] + st_, "%s %s %d" % (inner, "<<" if left else ">>", kk), False, (False, None, "")
+                    if ku < 0.24:
+                        return ["B", "xor"] + st_ + ["A", "c255"], "~%s" % inner, False, (False, None, "")
+                    return ["B", "sub", "A", "c0"] + st_, "-%s" % inner, False, (False, None, "")
                 while True:
                     o = rng.choice(OPS)
                     lt_, ls_, la, li = tree(d - 1, False)
@@ -185,6 +199,16 @@ def struct_program(rng):
                     break
                 return (["B", o[0]] + lt_ + rt_, "%s %s %s" % (ls_ if la else "(%s)" % ls_, o[1], rs_ if ra_ else "(%s)" % rs_),
                         False, (False, None, ""))
+            kc = rng.random()
+            if kc < 0.12:
+                # `lv <<= k` / `lv >>= k`: generate_shift on the target, then the assignment — the tree `lv << k`
+                left = rng.random() < 0.5; kk = rng.choice([1, 1, 2, 3, 5, 7])
+                return "expr:%s:S:%s:%d:A:%s" % (lt, "l" if left else "r", kk, lt), "%s %s= %d;" % (ls, "<<" if left else ">>", kk)
+            if kc < 0.35:
+                # `lv ∘= (e)` with a compound right-hand side: generate_arithm(lv, ∘, e), then the assignment — the tree `lv ∘ (e)`
+                o = rng.choice(OPS)
+                et, es, _, _ = tree(rng.randint(1, 2), True)
+                return "expr:%s:B:%s:A:%s:%s" % (lt, o[0], lt, ":".join(et)), "%s %s= %s;" % (ls, o[1], es)
             et, es, _, _ = tree(rng.randint(2, 3), True)
             return "expr:%s:%s" % (lt, ":".join(et)), "%s = %s;" % (ls, es)
         if k < 0.66:
@@ -223,6 +247,42 @@ def struct_program(rng):
             t1, s1 = cond(depth + 1)
             return ["not"] + t1, "!(%s)" % s1
         k = rng.random()
+        if rng.random() < 0.18:
+            # stage 12: a comparison / truth test whose operand is a quiet expression tree (its code writes nothing:
+            # a chain that continues on the accumulator, every right operand a memory operand or a constant)
+            def memop(nonzero=False):
+                while True:
+                    t_, s_, c_, n_ = atom(allow_reg=False, nonzero=nonzero)
+                    return t_, s_, c_, n_
+            t0, s0, c0, n0 = atom(allow_const=False)
+            toks_, text, first = ["A", t0], s0, True
+            for _ in range(rng.randint(1, 3)):
+                j = rng.random()
+                if j < 0.25 and not first or (j < 0.12):
+                    left = rng.random() < 0.5; kk = rng.choice([1, 1, 2, 3, 4])
+                    toks_ = ["S", "l" if left else "r", str(kk)] + toks_
+                    text = "%s %s %d" % (text if first else "(%s)" % text, "<<" if left else ">>", kk)
+                else:
+                    o = rng.choice(OPS)
+                    t1, s1, c1, n1 = memop()
+                    if first and t0.startswith("r") and o[0] == "or" and n1 == 0:
+                        continue                       # `X | 0`
+                    toks_ = ["B", o[0]] + toks_ + ["A", t1]
+                    text = "%s %s %s" % (text if first else "(%s)" % text, o[1], s1)
+                first = False
+            if first:
+                toks_ = ["B", "and"] + toks_ + ["A", "c127"]; text = "%s & 127" % text
+            j = rng.random()
+            if j < 0.2:
+                return ["te:" + ":".join(toks_)], "(%s)" % text
+            if j < 0.3:
+                return ["not", "te:" + ":".join(toks_)], "!(%s)" % text
+            o = rng.choice(COPS)
+            ordered = o[0] not in ("eq", "ne")
+            tb, sb, cb, nb = memop(nonzero=ordered)
+            if rng.random() < 0.7:
+                return ["cmpe:%s:%s:L:%s" % (o[0], tb, ":".join(toks_))], "(%s) %s %s" % (text, o[1], sb)
+            return ["cmpe:%s:%s:R:%s" % (o[0], tb, ":".join(toks_))], "%s %s (%s)" % (sb, o[1], text)
         if k < 0.2:
             lt, ls = lvalue()
             return ["t:" + lt], ls
@@ -374,6 +434,7 @@ def run(chk):
         chk.count("struct_programs")
         nexpr = sum(1 for t in toks if t.startswith("expr:"))
         chk.count("struct_tree_statements", nexpr)
+        chk.count("struct_tree_conditions", sum(1 for t in toks if t.startswith("cmpe:") or t.startswith("te:")))
         if nexpr and ma == "outside":
             # the port says the generator gives up on one of the trees: the real compiler must say so too
             if r["status"] == "err" and "too complex" in unhx(r["err"]["msg"]).lower():
@@ -458,6 +519,19 @@ def run(chk):
             if k < 0.55:
                 t = rng.choice(["t", "u"]); i_ = rng.choice(["X", "Y", "1", "2"]); return ["A", "e%s@%s" % (t, i_)], "%s[%s]" % (t, i_), True
             v = rng.choice("abcd"); return ["A", "v" + v], v, True
+        ku = rng.random()
+        if ku < 0.3:
+            st_, ss_, sa = gtree(d - 1)
+            inner = ss_ if sa else "(%s)" % ss_
+            if sa and st_[1].startswith("c"):
+                pass                                        # unary operator on a literal: folded by the parser, not generated
+            elif ku < 0.18:
+                left = rng.random() < 0.5; kk = rng.choice([0, 1, 1, 2, 3, 4, 7])
+                return ["S", "l" if left else "r", str(kk)] + st_, "%s %s %d" % (inner, "<<" if left else ">>", kk), False
+            elif ku < 0.24:
+                return ["B", "xor"] + st_ + ["A", "c255"], "~%s" % inner, False
+            else:
+                return ["B", "sub", "A", "c0"] + st_, "-%s" % inner, False
         o = rng.choice(OPS)
         lt_, ls_, la = gtree(d - 1); rt_, rs_, ra_ = gtree(d - 1)
         return ["B", o[0]] + lt_ + rt_, "%s %s %s" % (ls_ if la else "(%s)" % ls_, o[1], rs_ if ra_ else "(%s)" % rs_), False
